@@ -9,7 +9,7 @@
      INTERP d | lengths | linework                -> x y
      PROJ x y | lengths | linework                -> length comp seg frac d2   (or NONE)
      SUBSTR s e | lengths | linework              -> total ; line ; line ..    each line = points  x,y  separated by blanks
-     MERGE d | ins | outs                         -> units nodes
+     MERGE d | ins | outs                         -> units nodes points
      NODE tn td | ins | outs                      -> disjoint kernel in_on_out out_near_in cover_in cover_out
      POLY | ins | polys | dangles | cuts | invalid -> nodup valid sides edges account dangles cuts
      SHARED | g1 | g2 | fw | bw                   -> ok *)
@@ -71,10 +71,10 @@ let () =
              String.concat " ; " (List.map (fun l -> String.concat " " (List.map (fun (lc, _) -> show_qpt (point_of_loc gz lc)) l)) ls))
          | ["MERGE"; d], [i; o] ->
            let d = d = "1" and i = lines_of i and o = lines_of o in
-           print_endline (b2s (merge_units_ok d i o) ^ " " ^ b2s (merge_nodes_ok d i o))
+           print_endline (b2s (merge_units_ok d i o) ^ " " ^ b2s (merge_nodes_ok d i o) ^ " " ^ b2s (merge_pts_ok i o))
          | ["NODE"; tn; td], [i; o] ->
            let tn = zs tn and td = zs td and i = lines_of i and o = lines_of o in
-           print_endline (String.concat " " (List.map b2s [node_disjoint_ok o; node_kernel_agrees o; node_in_on_out i o;
+           print_endline (String.concat " " (List.map b2s [node_disjoint_ok o; node_kernel_agrees o; node_in_on_out tn td i o;
                                                             node_out_near_in tn td i o; node_cover_in tn td i o; node_cover_out tn td i o]))
          | ["POLY"], [i; p; d; c; r] ->
            let i = lines_of i and p = polys_of p and d = lines_of d and c = lines_of c and r = lines_of r in
